@@ -20,7 +20,10 @@ Reach: per-file SEDs stored in mJy, Jy or erg/cm2/s (`SED.read(unit_flux=mJy)` c
 (`val_factor` / `unc_factor` != 1), values and uncertainties possibly in different units in either format; aperture-less packages (no aperture list: the per-file format carries the
 1e-30 cm placeholder of `SED.write`, the cube format no APERTURES table); fits from the per-file package with
 `use_memmap=True` as well; a cube package whose parameter table is in another row order is a compared refusal
-(the code raises ValueError, the model answers `namesMismatch`).  Filter central wavelengths are handed over in
+(the code raises ValueError, the model answers `namesMismatch`; should the code accept it, the files it wrote are
+checked like any other: rows in cube order, every label on its own SED's convolution).  Multi-aperture packages
+may declare `aperture_dependent = no`: the fits of all variants must still agree and `fitter.models.fluxes` must
+be column 0 (the first tabulated aperture) of the convolved files.  Filter central wavelengths are handed over in
 micron, Angstrom, nm, mm or cm; FILTWAV of every file and `fitter.models.wavelengths` must be that wavelength in
 micron.  Staged history in one process: convolve -> fit -> write_parameters / write_parameter_ranges /
 extract_parameters -> convolve again (overwrite, one more filter): every file's rows still follow the parameter
@@ -57,6 +60,8 @@ REQUIRED_BRANCHES = ['perfile', 'cube', 'conv_memmap_on', 'conv_memmap_off', 'fi
                      'no_apertures', 'unit_sed_mJy', 'unit_sed_Jy', 'unit_sed_erg', 'unit_cube_mJy', 'unit_cube_Jy',
                      'perfile_fit_memmap_on', 'cube_table_permuted', 'cube_table_same_order',
                      'cube_val_unc_units_differ', 'sed_flux_err_units_differ',
+                     'fit_aperture_dependent', 'fit_aperture_independent', 'multi_aperture_fit_aperture_independent',
+                     'cube_table_accepted_rows_checked_or_refused',
                      'staged_history', 'staged_history_unsorted_table', 'stage_write_parameters',
                      'stage_write_parameter_ranges', 'stage_extract_parameters',
                      'cw_unit_um', 'cw_unit_AA', 'cw_unit_nm', 'cw_unit_mm', 'cw_unit_cm',
@@ -175,6 +180,7 @@ def gen_case(rng, n=None, table_perm=None, directed=None):
     # aperture-less package: SED objects / cube without an aperture list (one unnamed aperture)
     if directed.get('no_aps', nap == 1 and rng.random() < 0.4):
         nap, aps = 1, None
+    ap_dep = directed.get('apdep', None if (nap == 1 or rng.random() < 0.6) else False)
     # stored flux units: per-file SEDs in mJy, Jy or erg/cm2/s (nu F_nu); the cube in mJy or Jy
     unit_sed = directed.get('unit_sed', rng.choice(['mJy', 'mJy', 'Jy', 'erg/cm2/s']))
     unit_cube = directed.get('unit_cube', rng.choice(['mJy', 'Jy']))
@@ -214,7 +220,7 @@ def gen_case(rng, n=None, table_perm=None, directed=None):
                 cube_store=directed.get('cube_store', rng.choice(['nu_inc', 'nu_dec'])),
                 g=g, h=h, c=c, e=e, tilt=tilt, etilt=etilt, general=general, filters=filters, src=src, av=[0., 40.],
                 stage=directed.get('stage', rng.choice([None, None, 'write_parameters', 'write_parameter_ranges', 'extract_parameters'])),
-                flat=flat, unit_sed=unit_sed, unit_cube=unit_cube, unit_sed_err=unit_sed_err, unit_cube_unc=unit_cube_unc,
+                apdep=ap_dep, flat=flat, unit_sed=unit_sed, unit_cube=unit_cube, unit_sed_err=unit_sed_err, unit_cube_unc=unit_cube_unc,
                 cube_table=cube_table)
 
 
@@ -223,8 +229,8 @@ DIRECTED = [
     dict(n=8, nap=5, nf=3, flat=False, general=True, stage='write_parameters', sed_store='nu_dec', cube_store='nu_inc', pad=True, name30=True, subdir=True),
     dict(n=3, nap=1, nf=3, flat=True, sed_store='nu_dec', cube_store='nu_dec', pad=False, name30=True, stage='write_parameter_ranges', no_aps=True, unit_sed='erg/cm2/s', unit_cube='Jy', unit_sed_err='Jy', unit_cube_unc='mJy', cube_perm=True),
     dict(n=4, nap=2, nf=2, flat=False, general=False, sed_store='nu_inc', cube_store='nu_inc', pad=True, stage='extract_parameters', subdir=True, unit_sed='erg/cm2/s', unit_cube='mJy', unit_sed_err='erg/cm2/s', unit_cube_unc='mJy', cube_perm=True),
-    dict(n=5, nap=3, nf=2, flat=True, sed_store='nu_dec', cube_store='nu_inc', pad=True, subdir=True),
-    dict(n=2, nap=4, nf=3, flat=False, general=True, sed_store='nu_inc', cube_store='nu_dec', pad=False),
+    dict(n=5, nap=3, nf=2, flat=True, sed_store='nu_dec', cube_store='nu_inc', pad=True, subdir=True, apdep=False),
+    dict(n=2, nap=4, nf=3, flat=False, general=True, sed_store='nu_inc', cube_store='nu_dec', pad=False, apdep=False),
     dict(n=5, nap=1, nf=2, flat=False, general=True, sed_store='nu_dec', cube_store='nu_dec', pad=True, no_aps=False, unit_sed='Jy', unit_cube='Jy', unit_sed_err='erg/cm2/s', unit_cube_unc='mJy', cube_perm=True),
     dict(n=6, nap=1, nf=3, flat=False, general=True, sed_store='nu_inc', cube_store='nu_inc', pad=True, no_aps=True, unit_sed='mJy', unit_cube='Jy', cube_perm=False),
 ]
@@ -326,10 +332,10 @@ def build_perfile(case, d1):
     if plain:
         pk.write_sed_package(d1, names, case['wav'], flux, err, apertures_au=case['aps'],
                              table_order=case['table'], params=params, file_names=case['stems'],
-                             unit=astropy_unit(unit))
+                             unit=astropy_unit(unit), aperture_dependent=apdep(case))
         return
     os.makedirs(os.path.join(d1, 'seds'), exist_ok=True)
-    pk.write_conf(d1, aperture_dependent=case['nap'] > 1, version=1)
+    pk.write_conf(d1, aperture_dependent=apdep(case), version=1)
     wav = np.array(case['wav'], dtype=float)
     for i, nme in enumerate(names):
         path = os.path.join(d1, 'seds', case['stems'][nme] + '.fits')
@@ -356,14 +362,21 @@ def build_cube(case, d2):
         wav, val, unc = wav[::-1], val[:, :, ::-1], unc[:, :, ::-1]
     if unit_u == unit:
         pk.write_cube_package(d2, case['cube'], wav, val, unc, apertures_au=case['aps'],
-                              params={'PAR1': [float(i) for i in idx]}, unit=astropy_unit(unit))
+                              params={'PAR1': [float(i) for i in idx]}, unit=astropy_unit(unit), aperture_dependent=apdep(case))
     else:
         # values and uncertainties in different units: the cube keeps (and stores) the two units separately
-        pk.write_conf(d2, aperture_dependent=case['aps'] is not None and len(case['aps']) > 1, version=2)
+        pk.write_conf(d2, aperture_dependent=apdep(case), version=2)
         c = pk.make_cube(case['cube'], wav, val, None, case['aps'], unit=astropy_unit(unit))
         c.unc = np.array(unc, dtype=float) * astropy_unit(unit_u)
         c.write(os.path.join(d2, 'flux.fits'), overwrite=True)
         pk.write_parameters(d2, list(case['cube']), {'PAR1': [float(i) for i in idx]})
+
+
+def apdep(case):
+    """models.conf `aperture_dependent`: by default yes exactly when there are several apertures; a multi-aperture
+    package may also declare itself aperture-independent (the fitter then uses the first tabulated aperture)"""
+    d = case.get('apdep')
+    return (case['nap'] > 1) if d is None else bool(d)
 
 
 def make_filters(case):
@@ -481,7 +494,7 @@ def check_file(case, tab, via, expect_names, fname, filt, what, scale=1.):
             not np.array_equal(tab['err'], via['err']) or not same_aps(tab['aps'], via['aps']) or tab['wav'] != via['wav']:
         fails.append('%s %s: ConvolvedFluxes.read differs from the FITS table' % (what, fname))
     if [x.strip() for x in tab['names']] != expect_names:
-        fails.append('%s %s: row labels %r, expected %s order %r' % (what, fname, tab['names'], what, expect_names))
+        fails.append('%s %s: row labels %r, expected row order %r' % (what, fname, tab['names'], expect_names))
     if tab['flux'].shape != (n, nap) or tab['err'].shape != (n, nap):
         fails.append('%s %s: shape %r, expected %r' % (what, fname, tab['flux'].shape, (n, nap)))
         return fails, None
@@ -579,7 +592,7 @@ def f32_budget(case, fitter, lmax):
     k = np.abs(np.asarray(fitter.av_law, dtype=float))
     w = (np.log(10.) / np.array(case['src']['rel'])) ** 2
     sw, skw = float(np.sum(w)), float(np.sum(k * w))
-    if case['nap'] == 1:
+    if not apdep(case):
         m11, m12, m22 = float(np.sum(k * k * w)), float(np.sum(k * 2. * w)), 4. * sw
         det = m11 * m22 - m12 * m12
         tav = (m22 * skw + m12 * 2. * sw) / det
@@ -609,6 +622,7 @@ def impl_side(case, d):
     srt = sorted(names)
     br |= {'perfile', 'cube', 'sed_' + case['sed_store'], 'cube_' + case['cube_store'],
            'nap_1' if case['nap'] == 1 else 'nap_gt1', 'filters_%d' % len(filters),
+           'fit_aperture_dependent' if apdep(case) else 'fit_aperture_independent',
            'flat' if case['flat'] else 'nonflat', 'independent_expectation',
            'unit_sed_' + case.get('unit_sed', 'mJy').split('/')[0], 'unit_cube_' + case.get('unit_cube', 'mJy')}
     if case.get('unit_cube_unc', case.get('unit_cube', 'mJy')) != case.get('unit_cube', 'mJy'):
@@ -735,7 +749,7 @@ def impl_side(case, d):
                 okc, oka, oks = abs(c0 - c1) <= tc, abs(a0 - a1) <= ta, abs(s0 - s1) <= ts
                 if okc and oka and oks:
                     continue
-                if um and okc and case['nap'] > 1 and not oks:
+                if um and okc and apdep(case) and not oks:
                     relaxed += 1        # two trial distances tie within the float32 budget
                     continue
                 fails.append('fit of model %r from %s: (av, sc, chi2) = (%r, %r, %r); from the per-file package '
@@ -747,6 +761,22 @@ def impl_side(case, d):
             if len(wl) != len(case['filters']) or any(rel(x, f['cw']) > 1e-12 for x, f in zip(wl, case['filters'])):
                 fails.append('fitter on the %s package: model wavelengths %r micron, filter central wavelengths %r micron (given in %r)'
                              % (what, wl, [f['cw'] for f in case['filters']], [f.get('cw_unit', 'um') for f in case['filters']]))
+        # an aperture-independent fit uses the first tabulated aperture: column 0 of the convolved files
+        if not apdep(case):
+            if case['nap'] > 1:
+                br.add('multi_aperture_fit_aperture_independent')
+            for what, fv_ in fitters.items():
+                src_tab = v1 if what.startswith('per-file') else v2
+                mf = np.asarray(fv_.models.fluxes.to('mJy').value, dtype=float)
+                mnames = [str(x).strip() for x in fv_.models.names]
+                tol = 1e-6 if what.endswith('use_memmap=True') and not what.startswith('per-file') else 1e-12
+                for j, fn in enumerate(fnames):
+                    want = {x.strip(): float(src_tab[fn]['flux'][i][0]) for i, x in enumerate(src_tab[fn]['names'])}
+                    bad = [(nme, float(mf[i][j]), want.get(nme)) for i, nme in enumerate(mnames)
+                           if nme not in want or rel(mf[i][j], want[nme]) > tol]
+                    if mf.shape != (len(names), len(fnames)) or bad:
+                        fails.append('aperture-independent fit on the %s package, filter %s: model fluxes (name, used, flux at the '
+                                     'first tabulated aperture in the convolved file) differ: %r' % (what, fn, bad[:4]))
         # ---- staged history in this process: post-processing on a fit, then convolve again (+ one more filter)
         if case.get('stage') and not fails:
             fails += staged_history(case, d, d1, d2, filters, fitters, br)
@@ -762,8 +792,16 @@ def impl_side(case, d):
             with common.quiet():
                 convolve_model_dir(d2, filters, overwrite=True, memmap=False)
             obs['cube_table_outcome'] = None
+            # it accepted the package: the property must hold on what it wrote (rows in cube order, every label on
+            # the convolution of its own SED)
+            for fn, filt in zip(fnames, case['filters']):
+                tab, via = read_convolved(os.path.join(d2, 'convolved', fn + '.fits'))
+                f, _ = check_file(case, tab, via, case['cube'], fn, filt,
+                                  'cube package with parameter table %r, accepted,' % (case['cube_table'],))
+                fails += f
         except Exception as ex:
             obs['cube_table_outcome'] = type(ex).__name__
+        br.add('cube_table_accepted_rows_checked_or_refused')
         br.add('cube_table_permuted' if case['cube_table'] != case['cube'] else 'cube_table_same_order')
     return fails, obs, br
 
